@@ -189,7 +189,8 @@ def hashed_components(fi: FunctionInfo) -> List[ast.AST]:
     rets = [r for r in walk_local(fi.node) if isinstance(r, ast.Return)]
     if len(rets) != 1:
         raise AnalysisError("%s: __hash__ has %d return statements; the hashed components cannot be identified" % (fi.short, len(rets)))
-    v = rets[0].value
+    from ..astutil import expand_locals
+    v = expand_locals(fi.node, rets[0].value, fi.params)  # hoisted locals (`plane_hash = hash(self.plane)`) read as their definitions
     if isinstance(v, ast.Call) and isinstance(v.func, ast.Name) and v.func.id == "hash" and len(v.args) == 1:
         inner = v.args[0]
         if isinstance(inner, ast.Tuple):
@@ -443,13 +444,23 @@ def r86_r87(ctx, res):
     # direction fields only through invariant predicates
     for cname, field, allow_norm in (("Line", "dv", False), ("Plane", "n", False), ("HalfLine", "vector", True)):
         m = repo.cls(cname).lookup("__eq__")
+        # __eq__ together with the methods of the class it delegates to (self._same_direction(other))
+        bodies = [m]
+        for fm in bodies:
+            for x in walk_local(fm.node):
+                if isinstance(x, ast.Call) and isinstance(x.func, ast.Attribute) and isinstance(x.func.value, ast.Name) \
+                        and x.func.value.id in (fm.params[:2]) and len(bodies) < 6:
+                    callee = repo.cls(cname).lookup(x.func.attr)
+                    if callee is not None and callee.cls.name == cname and all(callee is not y for y in bodies):
+                        bodies.append(callee)
         par = {}
-        for x in ast.walk(m.node):
-            for ch in ast.iter_child_nodes(x):
-                par[id(ch)] = x
+        for fm in bodies:
+            for x in ast.walk(fm.node):
+                for ch in ast.iter_child_nodes(x):
+                    par[id(ch)] = x
         bad = []
         k = 0
-        for x in walk_local(m.node):
+        for x in [y for fm in bodies for y in walk_local(fm.node)]:
             if isinstance(x, ast.Attribute) and x.attr == field:
                 k += 1
                 p = par.get(id(x))
